@@ -56,9 +56,6 @@ impl Universe {
     pub fn term_index(&self, s: &str) -> Option<u8> {
         self.terms.iter().position(|t| t == s).map(|i| i as u8)
     }
-    pub fn graph_index(&self, s: &str) -> Option<u8> {
-        self.graphs.iter().skip(1).position(|t| t == s).map(|i| i as u8 + 1)
-    }
 }
 
 /// which API an insert / delete goes through
